@@ -76,6 +76,7 @@ class Ctx(object):
         self.rule_doc = {}
         self.notes = []
         self.extra = {}
+        self.problems = []           # analysis problems (missed floors, an AnalysisError that ended the check early)
 
     # -- recording
     def rule(self, rid, doc):
@@ -109,8 +110,8 @@ class Ctx(object):
         if any(f.rule == rid for f in self.findings):
             return      # the rule fired: report the violation rather than a missed floor
         if n < floor:
-            raise AnalysisError('%s matched %d instances, fewer than its floor %d '
-                                '(rule vacuous or anchor moved)' % (rid, n, floor))
+            # deferred: the other rules still run, so that a change which both moves an anchor and breaks a rule is reported as the violation it is
+            self.problems.append('%s matched %d instances, fewer than its floor %d (rule vacuous or anchor moved)' % (rid, n, floor))
 
     def note(self, s):
         self.notes.append(s)
@@ -124,7 +125,13 @@ def run_property(prop, check, tier, repo=None, overlay=None, quiet=True):
     """Run `check(ctx)` on a model; return ctx (raises AnalysisError)."""
     model = Model(repo, overlay)
     ctx = Ctx(prop, model, tier, quiet)
-    check(ctx)
+    try:
+        check(ctx)
+    except AnalysisError as e:
+        # the check stopped early: keep what the rules before it found (a violation is still a violation); without findings this is exit 2
+        if not ctx.findings:
+            raise
+        ctx.problems.append('check ended early: %s' % e)
     return ctx
 
 
